@@ -56,7 +56,7 @@ fn run_inner(case: &str, args: &Value) -> Option<Outcome> {
         "c12_upload" => Some(c12::upload(args)),
         "c04_serial" => Some(c04::serial(args)),
         "c02_exec" => Some(c02::exec(args)),
-        "c01_exec" => Some(c01::exec(args)),
+        "c01_exec" | "c04_merge" => Some(c01::exec(args)),
         "c19_modes" => Some(c19::modes(args)),
         "c31_apq" => Some(c31::apq(args)),
         "c22_lookahead" => Some(c22::lookahead(args)),
@@ -95,6 +95,7 @@ pub fn search(case: &str, seed: u64, open: &[String]) -> Option<SearchResult> {
         "c04_serial" => Box::new(c04::inputs(seed, open)),
         "c02_exec" => Box::new(c02::inputs(seed, open)),
         "c01_exec" => Box::new(c01::inputs(seed, open)),
+        "c04_merge" => Box::new(c01::merge_inputs(seed)),
         "c19_modes" => Box::new(c19::inputs(seed, open)),
         "c31_apq" => Box::new(c31::inputs(seed)),
         "c22_lookahead" => Box::new(c22::inputs(seed)),
